@@ -74,6 +74,28 @@ Theorem C14_graph_nodes_edges : forall (val : Type) (e : expr val),
 Proof. exact graph_nodes_edges. Qed.
 Print Assumptions C14_graph_nodes_edges.
 
+(* view DAGs (named leaves, sub-views used several times; a node is WHAT it computes): distinct nodes,
+   no edge twice however many paths reach a shared node, edges exactly (operand node -> operation),
+   every edge joins nodes of the graph *)
+Theorem C14_dag_graph : forall t : nid,
+  NoDup (dag_nodes t) /\ NoDup (dag_edges t)
+  /\ (forall p, In p (dag_nodes t) <-> In p (subterms t))
+  /\ (forall a p, In (a, p) (dag_edges t) <-> In p (dag_nodes t) /\ In a (operands_of p))
+  /\ (forall a p, In (a, p) (dag_edges t) -> In a (dag_nodes t)).
+Proof. exact dag_graph_spec. Qed.
+Print Assumptions C14_dag_graph.
+
+(* the in-edges of an operation node are exactly its distinct operand nodes, each once
+   (in-degree = arity whenever the operands are different nodes); mirrored operands are different nodes *)
+Theorem C14_dag_in_degree : forall t p : nid, In p (dag_nodes t) ->
+  NoDup (in_edges p (dag_edges t)) /\ (forall a, In a (in_edges p (dag_edges t)) <-> In a (operands_of p)).
+Proof. exact dag_in_edges. Qed.
+Print Assumptions C14_dag_in_degree.
+
+Theorem C14_distinct_operations_distinct_ids : forall x y : nid, nid_eqb x y = true <-> x = y.
+Proof. intros x y. exact (nid_eqb_eq x y). Qed.
+Print Assumptions C14_distinct_operations_distinct_ids.
+
 (* PARTIAL: the C++ ids are hashes (generate_alias); they identify the nodes uniquely only under
    the hypothesis that the naming is injective on the nodes of this graph (checked by the driver
    for every generated pipeline, not provable: see C14_ids_unique_refuted_beyond_1033) *)
@@ -129,5 +151,15 @@ Example C14_nonvacuous_extraction :
 Proof. repeat split; reflexivity. Qed.
 Example C14_refuted_values : eval Z refute_e = -19 /\ extracted Z refute_e = ([], [-8]).
 Proof. split; reflexivity. Qed.
+(* i; m=exp(i); s=sub(i,m); e=tanh(s); r=cos(s); d=add(e,r): nested diamonds, 6 nodes, 7 edges (not 9);
+   p=sub(x,y), q=sub(y,x), d=mul(p,q): 5 nodes, 6 edges, mirrored operands are two nodes *)
+Example C14_nonvacuous_dag :
+  let i := LeafId 0 in let m := OpId 1 [i] in let s := OpId 2 [i; m] in
+  let d := OpId 5 [OpId 3 [s]; OpId 4 [s]] in
+  length (dag_nodes d) = 6%nat /\ length (dag_edges d) = 7%nat /\ length (all_edges d) = 10%nat
+  /\ in_edges s (dag_edges d) = [i; m]
+  /\ (let x := LeafId 0 in let y := LeafId 1 in let d2 := OpId 7 [OpId 2 [x; y]; OpId 2 [y; x]] in
+      length (dag_nodes d2) = 5%nat /\ length (dag_edges d2) = 6%nat).
+Proof. repeat split; reflexivity. Qed.
 Example C14_alias_example : generate_alias [65; 66] = (65 * 512 + 66) mod 1033.
 Proof. reflexivity. Qed.
